@@ -86,3 +86,18 @@ package transport_controller
 //@   requires h.c != nil && lnk != nil
 //@   cs Controller.bcast ensures forall u uint64 trigger dom(self.links, u) :: old(u in self.links) && !(u in self.links) ==> old(self.links[u]).lnk == lnk
 //@   cs Controller.bcast ensures forall u uint64 trigger dom(self.links, u) :: (u in self.links) ==> old(u in self.links) && self.links[u] == old(self.links[u])
+
+//@ func newEstablishedLink
+//@   requires b != nil && lnk != nil && le != nil
+//@   ensures ret1 == nil ==> ret0 != nil && ret0.lnk == lnk && ret0.mlnk == mlnk && ret0.tpt == tpt && ret0.c == ctrl && ret0.di != nil
+//@   ensures ret1 == nil ==> fresh(ret0)
+
+// A newly established link only touches the entry of its own UUID; if that entry changes it now
+// holds the new link (an older link with the same UUID is flushed); a link whose remote peer is
+// the local peer is never stored.
+//@ func (*transportHandler).HandleLinkEstablished
+//@   noframe
+//@   requires h.c != nil && lnk != nil && h.c.bus != nil && h.c.le != nil && h.tpt != nil
+//@   cs Controller.bcast ensures forall u uint64 trigger dom(self.links, u) :: u != lnk.GetUUID() ==> ((u in self.links) <==> old(u in self.links)) && self.links[u] == old(self.links[u])
+//@   cs Controller.bcast ensures (lnk.GetUUID() in self.links) && (!old(lnk.GetUUID() in self.links) || self.links[lnk.GetUUID()] != old(self.links[lnk.GetUUID()])) ==> self.links[lnk.GetUUID()].lnk == lnk
+//@   cs Controller.bcast ensures lnk.GetRemotePeer() == old(self.peerID) ==> ((lnk.GetUUID() in self.links) <==> old(lnk.GetUUID() in self.links)) && self.links[lnk.GetUUID()] == old(self.links[lnk.GetUUID()])
